@@ -396,6 +396,18 @@ pub fn run_campaign(cfg: &CampaignCfg, check: &dyn Check) -> CampaignResult {
     let stop = AtomicBool::new(false);
     let per_run: Mutex<BTreeMap<u64, (Stats, Vec<Violation>)>> = Mutex::new(BTreeMap::new());
     let known = load_known(&cfg.known_path);
+    // supervision: the parent process learns from this file which runs were in
+    // flight when a child died; VERIF_RUN_ONLY restricts the child to one run
+    let progress: Option<Mutex<std::fs::File>> = std::env::var("VERIF_PROGRESS").ok().and_then(|p| std::fs::OpenOptions::new().create(true).append(true).open(p).ok()).map(Mutex::new);
+    let run_only: Option<u64> = std::env::var("VERIF_RUN_ONLY").ok().and_then(|s| s.parse().ok());
+    let note = |tag: &str, run: u64| {
+        if let Some(f) = &progress {
+            use std::io::Write;
+            let mut f = f.lock().unwrap();
+            let _ = writeln!(f, "{tag} {run}");
+            let _ = f.flush();
+        }
+    };
 
     std::thread::scope(|s| {
         for _ in 0..cfg.threads.max(1) {
@@ -411,6 +423,18 @@ pub fn run_campaign(cfg: &CampaignCfg, check: &dyn Check) -> CampaignResult {
                         if run >= cfg.runs {
                             break;
                         }
+                        if let Some(only) = run_only {
+                            if run != only {
+                                let mut st = Stats::default();
+                                st.runs = 1;
+                                per_run.lock().unwrap().insert(run, (st, vec![]));
+                                if run > only {
+                                    break;
+                                }
+                                continue;
+                            }
+                        }
+                        note("S", run);
                         if start.elapsed().as_secs() >= cfg.max_wall_s {
                             stop.store(true, Ordering::Relaxed);
                             break;
@@ -429,6 +453,7 @@ pub fn run_campaign(cfg: &CampaignCfg, check: &dyn Check) -> CampaignResult {
                             }
                         };
                         per_run.lock().unwrap().insert(run, (st, vs));
+                        note("E", run);
                     }
                 })
                 .unwrap();
